@@ -16,6 +16,7 @@ from __future__ import annotations
 import hashlib
 import json
 import os
+import re
 
 from vcore import REPO, VERIF, hexs, pyres
 
@@ -239,16 +240,33 @@ def build_real(spec):
 
 
 def parse_rom(ans):
-    """driver `rom` answer -> dict or ('rej', name)."""
+    """driver `rom` answer -> dict, or None when it is not a well-formed acceptance."""
     if not ans.startswith("ok "):
         return None
-    hdr, cmds, obs, cov = [p.strip() for p in ans[3:].split("|")]
-    ob_list = []
-    for o in filter(None, obs.split(";")):
-        c, pub, msg, sig = o.split()
-        ob_list.append((int(c), bytes.fromhex(pub), b"" if msg == "-" else bytes.fromhex(msg), bytes.fromhex(sig)))
-    return {"hdr": hdr, "cmds": [c for c in cmds.split(";") if c], "obs": ob_list,
-            "cov": [tuple(map(int, c.split(","))) for c in cov.split()]}
+    try:
+        hdr, cmds, obs, cov = [p.strip() for p in ans[3:].split("|")]
+        ob_list = []
+        for o in filter(None, obs.split(";")):
+            c, pub, msg, sig = o.split()
+            ob_list.append((int(c), bytes.fromhex(pub), b"" if msg == "-" else bytes.fromhex(msg), bytes.fromhex(sig)))
+        return {"hdr": hdr, "cmds": [c for c in cmds.split(";") if c], "obs": ob_list,
+                "cov": [tuple(map(int, c.split(","))) for c in cov.split()]}
+    except (ValueError, TypeError):
+        return None
+
+
+def rom_query(drv, s, inp, line):
+    """Ask the Spec-only ROM loader.  -> ('ok', dict) | ('rej', error name) | ('bad', None).
+    An answer of any other shape is a malfunction of the driver, not a verdict of the loader: it is recorded as a broken
+    correspondence and the caller skips its oracle."""
+    ans = drv.ask(line)
+    if ans.startswith("rej:") and re.fullmatch(r"rej:[A-Za-z]+[0-9]*", ans):
+        return "rej", ans[4:]
+    rom = parse_rom(ans)
+    if rom is not None:
+        return "ok", rom
+    s.compare((inp, "rom"), "ok <hdr> | <cmds> | <obligations> | <coverage>  or  rej:<error>", ans[:80], "the ROM-model driver op answered in an unexpected shape")
+    return "bad", None
 
 
 def rom_line(spec, file_bytes, enc=None, rights=None, pck=None):
@@ -322,9 +340,10 @@ def check_history(ck, drv, s, spec, tamper=None, builder=None, preloaded=(), bui
         # ---- oracle: the ROM loader on the implementation's bytes
         if drv is None:
             continue
-        ans = drv.ask(rom_line(spec, data))
-        rom = parse_rom(ans)
-        if not s.expect(rom is not None, (inp, hist), f"the ROM model refuses the container produced by {hist} of one object", ans[:200], "accepted"):
+        st_, rom = rom_query(drv, s, (inp, hist), rom_line(spec, data))
+        if st_ == "bad":
+            continue
+        if not s.expect(st_ == "ok", (inp, hist), f"the ROM model refuses the container produced by {hist} of one object", f"rej:{rom}", "accepted"):
             continue
         s.expect(rom["hdr"] == exp_hdr, (inp, hist), "header fields read by the ROM model differ from the values supplied", rom["hdr"], exp_hdr)
         exp_cmds = [" ".join(c) for c in cmds]
@@ -351,9 +370,10 @@ def check_history(ck, drv, s, spec, tamper=None, builder=None, preloaded=(), bui
                  rom["cov"][:4], len(data))
         # a loader with another key / access rights / mode must not decode the same commands (encrypted containers with commands)
         if spec["enc"] and cmds and tamper is not None and nexp == 1:
-            other = parse_rom(drv.ask(rom_line(spec, data, rights=(spec["rights"] + 1) % 4)))
+            st2, other = rom_query(drv, tamper, (inp, "rights"), rom_line(spec, data, rights=(spec["rights"] + 1) % 4))
             tamper.note((inp, "rights"), cls="wrong-rights")
-            tamper.expect(other is None or other["cmds"] != exp_cmds, (inp, "rights"), "the block keys do not depend on the kdk access rights")
+            if st2 != "bad":
+                tamper.expect(st2 == "rej" or other["cmds"] != exp_cmds, (inp, "rights"), "the block keys do not depend on the kdk access rights")
     return files
 
 
@@ -561,8 +581,8 @@ def run_config_case(ck, drv, sg, spec):
             if not sg.expect(res[0] == "ok" and isinstance(res[1], bytes), (spec, "cli"), "nxpimage sb31 export fails on a configuration that load_from_config accepts", res):
                 return
             data = res[1]
-            rom = parse_rom(drv.ask(rom_line(spec, data)))
-            if sg.expect(rom is not None, (spec, "cli"), "the ROM model refuses the file written by `nxpimage sb31 export`"):
+            st_, rom = rom_query(drv, sg, (spec, "cli"), rom_line(spec, data))
+            if st_ != "bad" and sg.expect(st_ == "ok", (spec, "cli"), "the ROM model refuses the file written by `nxpimage sb31 export`", f"rej:{rom}"):
                 sg.expect(rom["cmds"] == [" ".join(c) for c in expected], (spec, "cli"), "CLI: decoded commands differ from the configuration", rom["cmds"][:6])
                 sg.expect(all(ecdsa_ok(*o) for o in rom["obs"]), (spec, "cli"), "CLI: a signature obligation does not verify")
             # same header | hash and same data blocks as the API path (signatures are random); with timestamp 0 (= now) the two
@@ -589,7 +609,10 @@ def check_fuses_edge(ck, drv, se, spec):
     res = pyres(sb.export)
     if not se.expect(res[0] == "ok", spec, "export raises for PROGRAM_FUSES data that was accepted by the constructor", res):
         return
-    rom = parse_rom(drv.ask(rom_line(dict(spec, ts=int(sb.timestamp)), res[1])))
+    st_, rom = rom_query(drv, se, spec, rom_line(dict(spec, ts=int(sb.timestamp)), res[1]))
+    if st_ == "bad":
+        return
+    rom = rom if st_ == "ok" else None
     se.expect(rom is not None and rom["cmds"] == [" ".join(t), " ".join(tail)], spec,
               "PROGRAM_FUSES data that is not a whole number of 32-bit words is accepted and decodes to other commands than supplied",
               None if rom is None else rom["cmds"], [" ".join(t), " ".join(tail)])
@@ -601,6 +624,8 @@ def run(ck, only=None):
     logging.disable(logging.CRITICAL)
     from spsdk.sbfile.sb31 import functions as F
 
+    # driver ops that evaluate Spec-only definitions (Spec/Sb31Rom.lean + Crypto/*: no import of Model/ or Generated/)
+    ck.spec_ops = {"rom", "parse", "romkdf"}
     ck.lean_obligations(generated=["Sb31Consts"])
     drv = ck.driver()
     rng = ck.rng
@@ -653,7 +678,10 @@ def run(ck, only=None):
                 sc.compare(t, "ok:" + res[1].hex(), drv.ask("enc " + " ".join(t)), "command bytes differ between implementation and model")
                 trail = rng.randbytes(rng.choice([0, 16, 5]))
                 back = drv.ask("parse " + hexs(res[1] + trail))
-                sc.expect(back == f"ok {' '.join(t)} | {hexs(trail)}", t, "the ROM command parser does not return the command that was exported", back[:160])
+                if re.match(r"(ok [a-z]+( [0-9a-f-]+)* \| [0-9a-f-]+|rej:[A-Za-z]+)$", back):
+                    sc.expect(back == f"ok {' '.join(t)} | {hexs(trail)}", t, "the ROM command parser does not return the command that was exported", back[:160])
+                else:
+                    sc.compare(t, "ok <cmd> | <rest>  or  rej:<error>", back[:80], "the ROM command parser driver op answered in an unexpected shape")
     # out-of-range / out-of-domain: only implementation vs model
     so = ck.stream("out_of_range", "fields that do not fit their struct code (2^32, 2^16 for key blob offset/wrap id), fuse data that is not a multiple of 4, "
                    "kdk access rights 4..5: implementation vs model (error class / bytes); non-trivial = distinct input")
@@ -684,8 +712,11 @@ def run(ck, only=None):
             continue
         if drv is not None:
             sk.compare(inp, res[1].hex(), drv.ask(f"kdf {key.hex()} {const} {rights} {2 if blk else 1} {klen}"), "KDF: implementation vs model")
-            sk.expect(res[1].hex() == drv.ask(f"romkdf {key.hex()} {const} {rights} {int(blk)} {klen}"), inp,
-                      "derived key differs from the documented CMAC counter-mode KDF (ROM side)")
+            rk = drv.ask(f"romkdf {key.hex()} {const} {rights} {int(blk)} {klen}")
+            if re.fullmatch(r"[0-9a-f]{32}([0-9a-f]{32})?", rk):
+                sk.expect(res[1].hex() == rk, inp, "derived key differs from the documented CMAC counter-mode KDF (ROM side)", res[1].hex(), rk)
+            else:
+                sk.compare(inp, "<16 or 32 bytes hex>", rk[:80], "the ROM KDF driver op answered in an unexpected shape")
     for rights in (4, 5, 255):
         spec = gen_spec(rng, ops=[])
         spec.update(enc=True, rights=rights)
@@ -735,8 +766,10 @@ def run(ck, only=None):
             mut = bytearray(data)
             mut[pos] ^= 1 << bit
             st.note((spec, pos, bit), cls=region)
-            rom = parse_rom(drv.ask(rom_line(spec, bytes(mut))))
-            detected = rom is None or not all(ecdsa_ok(*o) for o in rom["obs"])
+            stt, rom = rom_query(drv, st, (spec, pos, bit), rom_line(spec, bytes(mut)))
+            if stt == "bad":
+                continue
+            detected = stt == "rej" or not all(ecdsa_ok(*o) for o in rom["obs"])
             st.expect(detected, (spec, pos, bit), f"a corrupted byte in the {region} region is accepted by the ROM model (not covered by signature + hash chain)")
     # ---------------- 4. glue: configuration dictionaries (YAML/JSON) -> load_from_config -> export, and the nxpimage CLI
     sg = ck.stream("config_glue", "generated configurations (every command kind in each of its YAML forms: file / values / value / authentication "
